@@ -1,4 +1,13 @@
 SPECIFICATION MSpec
-CONSTANTS MaxSub = 2 MaxIns = 2 MaxPart = 2 MaxRes = 2 MachSub = 2 MachIns = 2 MachPart = 1 MachRes = 2 FullPlmn = FALSE
+CONSTANTS
+  MaxSub = 2
+  MaxIns = 2
+  MaxPart = 2
+  MaxRes = 2
+  MachSub = 2
+  MachIns = 2
+  MachPart = 1
+  MachRes = 2
+  FullPlmn = FALSE
 INVARIANTS MeasureNat StepBound AgreesWithSpec Canonical
 PROPERTY MeasureDecreases
